@@ -17,7 +17,7 @@ import z3
 
 from mdvc import core
 from mdvc.core import SInt, Unsupported
-from mdvc.pyinterp import Namespace, Obj, OpaqueModule
+from mdvc.pyinterp import EXC, ExcClass, ExcInst, Namespace, Obj, OpaqueModule, PyExc
 from mdvc.verify import contract
 
 SHAPE = [  # chains -> residues -> atom names
@@ -320,3 +320,121 @@ def eq_hash(ctx, case):
         ctx.ensure("a==b=>hash(a)==hash(b)", ha.value == hb.value)
     if case == "identical":
         ctx.ensure("rebuilt-twin-compares-equal", equal)
+
+
+# =====================================================================================================
+# Topology carried by an HDF5 file: HDF5TrajectoryFile.topology setter followed by the getter (mdtraj/formats/hdf5.py)
+class _JsonText:
+    """the JSON text of a Python value: json.dumps / .encode / .decode / json.loads are the identity on the value it denotes
+    (trusted: JSON represents dicts, lists, ints and strings exactly); loads returns fresh containers"""
+
+    def __init__(self, value):
+        self.value = value
+
+    def encode(self, *_a):
+        return self
+
+    def decode(self, *_a):
+        return self
+
+
+def _fresh(v):
+    if isinstance(v, dict):
+        return {k: _fresh(x) for k, x in v.items()}
+    if isinstance(v, list):
+        return [_fresh(x) for x in v]
+    return v
+
+
+class _H5Top:
+    """PyTables handle as far as the topology property uses it: one optional array node named 'topology'"""
+
+    def __init__(self, NoSuch):
+        self.nodes, self.NoSuch, self.events = {}, NoSuch, []
+
+    def sym_getattr(self, interp, name):
+        if name == "get_node":
+            def get_node(where="/", name=None):
+                if name in self.nodes:
+                    return self.nodes[name]
+                raise PyExc(ExcInst(self.NoSuch, (name,)))
+            return get_node
+        if name == "remove_node":
+            def remove_node(where="/", name=None):
+                if name not in self.nodes:
+                    raise PyExc(ExcInst(self.NoSuch, (name,)))
+                del self.nodes[name]
+                self.events.append(("remove", name))
+            return remove_node
+        if name == "create_array":
+            def create_array(where="/", name=None, obj=None):
+                self.nodes[name] = list(obj)
+                self.events.append(("create", name))
+            return create_array
+        raise Unsupported("h5 handle." + name)
+
+
+@contract("C04", "mdtraj/formats/hdf5.py", "HDF5TrajectoryFile.topology(setter;getter)", replay="topology")
+def hdf5_topology(ctx, case):
+    """what the HDF5 schema can hold comes back unchanged for EVERY value of resSeq (symbolic, includes 0 and negatives): chains,
+    residue names, resSeq, segment ids, atom names, elements, bonds as index pairs, in order.  (chain ids, serials and bond
+    types/orders are not part of the schema: recorded known finding, not demanded here.)"""
+    mod, elems = setup(ctx)
+    I = ctx.interp
+    im = I.import_models
+    Top = mod.globals["Topology"]
+    im["mdtraj.core.topology"] = Namespace("topology", Topology=Top)
+    by_symbol = {e.symbol: e for e in elems.values()}
+
+    def get_by_symbol(sym):
+        if sym in by_symbol:
+            return by_symbol[sym]
+        raise PyExc(ExcInst(EXC["KeyError"], (sym,)))
+
+    im["mdtraj.core.element"] = Namespace("element", get_by_symbol=get_by_symbol, virtual=elems["virtual"])
+    js = Namespace("json", dumps=lambda v: _JsonText(v), loads=lambda t: _fresh(t.value))
+    im["json"] = js
+    im["simplejson"] = js
+    im["mdtraj"] = Namespace("mdtraj", __version__="x", core=Namespace("core", element=im["mdtraj.core.element"]))
+    import operator as _op
+
+    im["operator"] = _op
+    h5 = ctx.module("mdtraj/formats/hdf5.py")
+    NoSuch = ExcClass("NoSuchNodeError", [EXC["Exception"]])
+    handle = _H5Top(NoSuch)
+    f = Obj(h5.globals["HDF5TrajectoryFile"])
+    f.fields.update(_open=True, mode="w", _handle=handle, tables=Namespace("tables", NoSuchNodeError=NoSuch))
+    top, view, bonds, atoms = build(ctx, mod, elems, "t", symbolic=True)
+    try:
+        I.setattr(f, "topology", top)
+        raised = None
+    except PyExc as e:
+        raised = e
+    ctx.ensure("setter:no-exception", raised is None)
+    if raised is not None:
+        return
+    ctx.ensure("setter:exactly-one-topology-node-stored", sorted(handle.nodes) == ["topology"])
+    f.fields["mode"] = "r"
+    out = ctx.call(lambda: I.getattr(f, "topology"))
+    ctx.ensure("getter:no-exception", not out.raised)
+    if out.raised:
+        return
+    ctx.cover("round-trip")
+    got = out.value
+    ctx.ensure("result-is-a-new-topology", got is not top)
+    gv = view_of(got)
+    ctx.ensure("same-number-of-chains", len(gv) == len(view))
+    for ci, ((_cid, cres), (_gcid, gres)) in enumerate(zip(view, gv)):
+        ctx.ensure(f"chain{ci}:same-number-of-residues", len(cres) == len(gres))
+        for ri, ((rn, rseq, seg, ratoms), (grn, grseq, gseg, gatoms)) in enumerate(zip(cres, gres)):
+            ctx.ensure(f"chain{ci}.res{ri}:name", eqv(rn, grn))
+            ctx.ensure(f"chain{ci}.res{ri}:resSeq(every-value,including-0)", eqv(rseq, grseq))
+            ctx.ensure(f"chain{ci}.res{ri}:segment-id", eqv(seg, gseg))
+            ctx.ensure(f"chain{ci}.res{ri}:same-number-of-atoms", len(ratoms) == len(gatoms))
+            for ai, ((an, ae, _s), (gan, gae, _gs)) in enumerate(zip(ratoms, gatoms)):
+                ctx.ensure(f"chain{ci}.res{ri}.atom{ai}:name-and-element", eqv(an, gan) and (ae is gae))
+    gat = flat_atoms(got)
+    gb = [(gat.index(b.fields["_tuple"][0]) if False else [x for x in range(len(gat)) if gat[x] is b.fields["_tuple"][0]][0],
+           [x for x in range(len(gat)) if gat[x] is b.fields["_tuple"][1]][0]) for b in got.fields["_bonds"]]
+    ctx.ensure("bonds:same-index-pairs-in-order", gb == [(i, j) for (i, j, _t, _o) in bonds])
+    ctx.ensure("bonds-join-the-result's-own-atoms", all(any(a is x for x in gat) for b in got.fields["_bonds"] for a in b.fields["_tuple"]))
